@@ -23,7 +23,7 @@ VARIANTS = {
     "asan": BASE + SAN,
     "fuzz": BASE + SAN + ["-fsanitize=fuzzer-no-link"],
     "fi": BASE + SAN + ["-include", os.path.join(VERIF, "harness/common/alloc_hook.h")],
-    "plain": ["-g", "-O2", "-DHAVE_CONFIG_H", "-D" + GUARD + "=1"],
+    "plain": ["-g", "-gdwarf-4", "-O2", "-DHAVE_CONFIG_H", "-D" + GUARD + "=1"],
 }
 LIB_GLOBS = ["archdep.c", "vnacal_*.c", "vnacommon_*.c", "vnaerr_*.c", "vnaconv_*.c", "vnadata_*.c", "vnaproperty*.c"]
 
@@ -131,7 +131,7 @@ def build_harness(name, sources, variant="asan", extra_cflags=(), extra_ldflags=
     if variant == "fi":
         # the alloc hook is for libvna's translation units only
         i = flags.index("-include"); del flags[i:i + 2]
-    common_hdrs = sorted(glob.glob(os.path.join(VERIF, "harness/common/*.h*")) + glob.glob(os.path.join(VERIF, "harness/props/*.h*")) + glob.glob(os.path.join(VERIF, "harness/props/*.inc")))
+    common_hdrs = sorted(glob.glob(os.path.join(VERIF, "harness/common/*.h*")) + glob.glob(os.path.join(VERIF, "harness/props/*.h*")) + glob.glob(os.path.join(VERIF, "harness/props/*.inc")) + glob.glob(os.path.join(VERIF, "harness/fuzz/*.h")))
     hh = sha(*[file_hash(h) for h in common_hdrs], *[file_hash(h) for h in sorted(glob.glob(os.path.join(src, "*.h")))])
     objs, todo = [], []
     for s in sources:
